@@ -22,6 +22,7 @@ def run(res):
     if res.broken:
         n = max(n, 1500)      # failing-input search on the implementation
     pc.pool_check(res, 'C07', n, focus=FOCUS)
+    pc.closed_check(res, 'C07', 120 if res.tier == 'quick' else 2000)
     pc.real_scenarios(res, 'C07', REAL_QUICK if res.tier == 'quick' else REAL_THOROUGH)
     res.assumptions += pc_assumptions()
 
